@@ -331,6 +331,9 @@ func TestProp(t *testing.T) {
 		for i := 0; i < nRand; i++ {
 			fn := fns[rng.Intn(len(fns))]
 			s := rs(14)
+			if i%40 == 39 { // long strings
+				s = rs(600)
+			}
 			n := len(s)
 			tk := rs(2)
 			if tk == "" {
@@ -340,6 +343,9 @@ func TestProp(t *testing.T) {
 			switch fn {
 			case "Pad":
 				c.A = rng.Range(0, n+12)
+				if i%40 == 39 || i%40 == 38 {
+					c.A = rng.Range(n, n+900)
+				}
 			case "Unwrap":
 				if rng.Bool() { // nearly wrapped shapes
 					c.S = hx(tk + rs(5) + []string{tk, "", tk[:len(tk)/2]}[rng.Intn(3)])
